@@ -48,14 +48,18 @@ Record case := mkcase {
   c_cres : list (list (option nat));   (* observed results per thread, one per call, oldest first; None = context error *)
   c_ccache : list (option nat);        (* observed final cache entry per key *)
   c_cdb : list nat;                    (* observed final database per key *)
-  c_more : list (nat * list CA.cop)    (* further calls of a thread *)
+  c_more : list (nat * list CA.cop);   (* further calls of a thread *)
+  c_pe : bool;              (* WithExpire(c_expire s) was passed (c_expire may be <= 0); otherwise no option *)
+  c_pn : bool               (* WithNotFoundExpire(c_nfexpire s) was passed *)
 }.
 
 Definition universe : list key := [PK 0; PK 1; PK 2; PK 3; IX 0; IX 1; IX 2].
 Definition key_index (k : key) : nat := match k with PK id => id | IX i => (4 + i)%nat end.
 Definition place_of (c : case) (k : key) : nat := nth (key_index k) (c_place c) 0%nat.
-Definition cfg_of (c : case) : cfg :=
-  mkC (c_expire c * sec) (c_nfexpire c * sec) safe_gap.
+(* the expiries in force (ns): what the options given to the constructor leave *)
+Definition eff_e (c : case) : Z := effective (if c_pe c then Some (c_expire c * sec) else None) default_expire.
+Definition eff_n (c : case) : Z := effective (if c_pn c then Some (c_nfexpire c * sec) else None) default_nfexpire.
+Definition cfg_of (c : case) : cfg := mkC (eff_e c) (eff_n c) safe_gap.
 Definition fac (m : Z) : Q := factor expire_deviation (m # 1024).
 Definition nnodes (c : case) : nat := if Nat.eqb (c_level c) 2 then c_nnodes c else 1%nat.
 
@@ -165,9 +169,9 @@ Definition ttl_ok (c : case) (idx : bool) (s : sst) (d : list (nat * key * (cval
     let '(j, k, (v, ttl)) := x in
     if entry_eqb (dump_lookup (s_dump s) j k) (Some (v, ttl)) then true
     else match v with
-         | VStar => in_windowb (c_nfexpire c * sec) ttl
-         | _ => in_windowb (c_expire c * sec) ttl ||
-                (idx && match k with PK _ => in_windowb (c_expire c * sec) (ttl - 5) | _ => false end)
+         | VStar => in_windowb (eff_n c) ttl
+         | _ => in_windowb (eff_e c) ttl ||
+                (idx && match k with PK _ => in_windowb (eff_e c) (ttl - 5) | _ => false end)
          end) d.
 
 (* deletes: failed ones taint their keys and must be retried; successful ones make the key clean *)
@@ -200,8 +204,8 @@ Definition retried_keys (c : case) (lo hi : Z) : list key :=
                                           | _ => [] end) lg) (c_logs c).
 
 Definition spec_step (c : case) (s : sst) (o : xop) (ob : oobs) : bool * sst :=
-  let e := c_expire c * sec in
-  let nfe := c_nfexpire c * sec in
+  let e := eff_e c in
+  let nfe := eff_n c in
   let same_q := Nat.eqb (o_q ob) (s_q s) in
   let one_q := Nat.eqb (o_q ob) (S (s_q s)) in
   let fin (s' : sst) := mkS (s_t s') (s_f s') (s_now s') (s_tick s') (s_taint s') (s_shield s') (o_q ob) (o_dump ob) (s_arms s') in
@@ -269,7 +273,16 @@ Definition spec_step (c : case) (s : sst) (o : xop) (ob : oobs) : bool * sst :=
       let s1 := mkS (s_t s) (s_f s) (s_now s + Z.max 0 dt) hi
                     (fold_left (fun t k => del_key k t) ks (s_taint s))
                     (filter (fun kt => negb (mem (fst kt) ks)) (s_shield s)) (s_q s) (s_dump s) (s_arms s) in
-      (same_q, fin s1)
+      (* a retry that runs while DEL works on its node succeeds -- whatever became of the context of the call whose
+         delete had failed *)
+      let tries_ok :=
+        forallb (fun jl =>
+          forallb (fun e => match e with
+                            | EvTry _ t ok => if (s_tick s <? t) && (t <=? hi) && negb (fd (fl s (fst jl))) then ok else true
+                            | _ => true
+                            end) (snd jl))
+          (combine (seq 0 (List.length (c_logs c))) (c_logs c)) in
+      (same_q && tries_ok, fin s1)
   | XFault None g s' d =>
       (same_q, fin (mkS (s_t s) (map (fun _ => (g, s', d)) (s_f s)) (s_now s) (s_tick s) (s_taint s) (s_shield s) (s_q s) (s_dump s) (s_arms s)))
   | XFault (Some j) g s' d =>
